@@ -25,17 +25,22 @@
 //!   U<s>:<k>     UserLabel (endpoint 1) := [("k<k>","v<k>")] N<s>:<k> NodeLabel := "n<k>"
 //!   O<s>:<k>     Location := two letters of k            Y<s>:<k> SetRegulatoryConfig(k % 3, country of k)
 //!   X<s>:<f>     RemoveFabric(f)
+//!   <op>~<j>     the operation cut by a power loss after its j-th key-value operation, then restart (the history goes on)
 //!   H:<f>:<p>    a CASE handshake leaves a resumption record (fabric f, peer p) in memory
 //!   J            the debounced task flushes the resumption cache
 //!   !            factory reset (Matter::factory_reset + InteractionModel::factory_reset)
 //!   P            new PASE session                        Q        power loss + restart
 //!
 //! Output: S <id> <op-record>;...;<op-record> # <cut-record>;...
-//!   op-record  = <status>|<kv ops>|<ack>|<fs>|<cells>     (live device after the operation)
+//!   op-record  = <status>|<kv ops>|<ack>|<fs>|<end>|<cells>|<kind>|<inc>     (live device after the operation)
 //!       kv ops = s<key> / r<key> of this operation, in order (event epoch and group counter keys are C12's: left out);
 //!                a factory reset prints `reset:<removes>:<keys left>`
 //!       ack    = how many of these had been issued when the answer left the device (`-`: no answer)
 //!       fs     = i | a<fabric>:<noc flag>
+//!       cells  = ... R=<resumption cache in memory> ... K=<resumption cache as STORED: - absent, 0 empty, ! unreadable>
+//!       end, kind, inc[/<f>.<peer>]: log length so far, kind of the operation (`x`: cut by `~j`, the kv ops are the j that
+//!                made it plus those of the start-up), and - not compared with the model, input of the monitor - which
+//!                commissioning each fabric index stands for (`<idx>.<n>+..`) and the session an `H` established
 //!   cut-record = <n>|<boot>|<cells>    a fresh device started from the first n key-value operations
 //! Other kinds: R (round trips up to capacity), C (corrupt resumption blobs), K (key census),
 //! I (corrupt blobs of the other structures: informative).
@@ -275,6 +280,8 @@ enum Op {
     Location(Sess, u64),
     Reg(Sess, u64),
     Remove(Sess, u8),
+    /// the operation, cut by a power loss after so many of its key-value operations
+    Cut(Box<Op>, usize),
     Tz(Sess, u64),
     Tts(Sess, u64),
     Icd(Sess, u64),
@@ -302,6 +309,9 @@ fn parse_sess(t: &str) -> (Sess, &str) {
 }
 
 fn parse_op(t: &str) -> Op {
+    if let Some((inner, j)) = t.split_once('~') {
+        return Op::Cut(Box::new(parse_op(inner)), j.parse().unwrap());
+    }
     let kind = t.chars().next().unwrap();
     match kind {
         'E' => return Op::Expire,
@@ -362,6 +372,7 @@ fn op_kind(op: &Op) -> char {
         Op::Location(..) => 'O',
         Op::Reg(..) => 'Y',
         Op::Remove(..) => 'X',
+        Op::Cut(..) => 'x',
         Op::Tz(..) => 'T',
         Op::Tts(..) => 't',
         Op::Icd(..) => 'I',
@@ -377,6 +388,9 @@ fn op_kind(op: &Op) -> char {
 }
 
 fn op_sess(op: &Op) -> Option<Sess> {
+    if let Op::Cut(inner, _) = op {
+        return op_sess(inner);
+    }
     match op {
         Op::Arm(s, ..)
         | Op::AddNoc(s, ..)
@@ -524,7 +538,20 @@ fn subs_cell(subs: &[(u32, u8, u64, u16)]) -> String {
     format!("S={}", if v.is_empty() { "-".to_string() } else { v.join("+") })
 }
 
-fn cells(dev: &Matter<'_>, st: &DevState, app: &App, subs: &[(u32, u8, u64, u16)]) -> String {
+/// the resumption cache as it is in the STORE: `-` no blob, `0` a blob without records, `!` a blob that does not parse
+fn stored_cache_cell(kv: &MemKv) -> String {
+    let s = match kv.blobs().get(&CASE_RESUMPTION_KEY) {
+        None => "-".to_string(),
+        Some(b) => match rs_matter::utils::storage::Vec::<ResumableSession, MAX_RESUMPTION_RECORDS>::from_tlv(&TLVElement::new(b)) {
+            Ok(v) if v.is_empty() => "0".to_string(),
+            Ok(v) => v.iter().map(|x| format!("{}.{}", x.fab_idx.get(), x.peer_nodeid)).collect::<Vec<_>>().join("+"),
+            Err(_) => "!".to_string(),
+        },
+    };
+    format!("K={}", s)
+}
+
+fn cells(dev: &Matter<'_>, st: &DevState, app: &App, subs: &[(u32, u8, u64, u16)], kv: &MemKv) -> String {
     let mut v: Vec<String> = Vec::new();
     dev.with_state(|state| {
         v.extend(fabrics_cells(&state.fabrics));
@@ -545,6 +572,7 @@ fn cells(dev: &Matter<'_>, st: &DevState, app: &App, subs: &[(u32, u8, u64, u16)
     v.push(format!("P={}", ota_tokens(&app.providers)));
     v.push(format!("E={}", scenes_tokens(&app.scenes)));
     v.push(subs_cell(subs));
+    v.push(stored_cache_cell(kv));
     v.join(" ")
 }
 
@@ -895,9 +923,37 @@ struct Ctl {
     pase_gen: u16,
     /// in-scope key-value operations issued so far (whole history)
     scoped_total: usize,
+    /// in-scope key-value operations of the history that are not in the log of the current store object
+    /// (the store is rebuilt from a prefix of the history when a power loss cuts an operation)
+    base_scoped: usize,
+    /// which commissioning each fabric index currently stands for (the harness's own bookkeeping)
+    inc: BTreeMap<u8, u64>,
+    next_inc: u64,
+}
+
+impl Ctl {
+    /// a fabric index that was not there before is a new commissioning; one that is gone is forgotten
+    fn track(&mut self, dev: &Matter<'_>) -> String {
+        let present: Vec<u8> = dev.with_state(|state| state.fabrics.iter().map(|f| f.fab_idx().get()).collect());
+        self.inc.retain(|k, _| present.contains(k));
+        for i in present {
+            if !self.inc.contains_key(&i) {
+                self.inc.insert(i, self.next_inc);
+                self.next_inc += 1;
+            }
+        }
+        let v: Vec<String> = self.inc.iter().map(|(k, n)| format!("{}.{}", k, n)).collect();
+        if v.is_empty() {
+            "-".to_string()
+        } else {
+            v.join("+")
+        }
+    }
 }
 
 struct OpRec {
+    /// fabric index -> commissioning number (not compared with the model: monitor input)
+    inc: String,
     kind: char,
     status: String,
     kv: String,
@@ -912,6 +968,9 @@ enum Next {
     Done,
     /// restart, continuing with this operation; length of the log at the power loss
     Boot(usize, usize),
+    /// power loss inside the operation before this one: (continue with, log length before that operation,
+    /// in-scope key-value operations of it that made it to the store)
+    Cut(usize, usize, usize),
 }
 
 fn resumption_record(fab: u8, peer: u64) -> ResumableSession {
@@ -961,12 +1020,12 @@ fn boot_and_snapshot(kv: &MemKv) -> (String, String) {
         Err(_) => "panic".to_string(),
     };
     let boot = if boot1 == "ok" && boot2 == "ok" { "ok".to_string() } else { format!("{}/{}", boot1, boot2) };
-    (boot, cells(&dev, &st, &app, &dm.verif_subscriptions()))
+    (boot, cells(&dev, &st, &app, &dm.verif_subscriptions(), kv))
 }
 
 /// Run ops[start..] on one device incarnation over `kv` (which keeps its log across incarnations).
 #[allow(clippy::too_many_arguments)]
-fn run_incarnation(base: &Base, cm: &mut Ctl, kv: &MemKv, ops: &[Op], start: usize, pase_at_boot: bool, boot_no: u64, crash_log_len: Option<usize>, recs: &mut Vec<OpRec>) -> Next {
+fn run_incarnation(base: &Base, cm: &mut Ctl, kv: &MemKv, ops: &[Op], start: usize, pase_at_boot: bool, boot_no: u64, crash_log_len: Option<usize>, crash_prefix: &[String], recs: &mut Vec<OpRec>) -> Next {
     let det = e2e::dev_det(None, None);
     let dev = e2e::new_matter(det, false);
     let ctl = e2e::new_matter(det, false);
@@ -991,24 +1050,23 @@ fn run_incarnation(base: &Base, cm: &mut Ctl, kv: &MemKv, ops: &[Op], start: usi
     if let Some(lb) = crash_log_len {
         // the record of the power loss: what the start-up wrote, and the node it came up as
         let full = kv.log();
-        let v: Vec<String> = full[lb..]
-            .iter()
-            .filter(|o| !foreign_key(op_key(o)))
-            .map(|o| match o {
-                KvOp::Store(k, _) => format!("s{}", k),
-                KvOp::Remove(k) => format!("r{}", k),
-                KvOp::StoreFailed(k) => format!("f{}", k),
-            })
-            .collect();
-        let end = scoped_len(&full);
+        let mut v: Vec<String> = crash_prefix.to_vec();
+        v.extend(full[lb..].iter().filter(|o| !foreign_key(op_key(o))).map(|o| match o {
+            KvOp::Store(k, _) => format!("s{}", k),
+            KvOp::Remove(k) => format!("r{}", k),
+            KvOp::StoreFailed(k) => format!("f{}", k),
+        }));
+        let end = cm.base_scoped + scoped_len(&full);
         cm.scoped_total = end;
+        let inc = cm.track(&dev);
         recs.push(OpRec {
-            kind: 'Q',
+            inc,
+            kind: if crash_prefix.is_empty() && !matches!(ops.get(start.wrapping_sub(1)), Some(Op::Cut(..))) { 'Q' } else { 'x' },
             status: "ok".into(),
             kv: if v.is_empty() { "-".to_string() } else { v.join(",") },
             ack: "-".into(),
             fs: fs_str(&dev),
-            cells: cells(&dev, &st, &app, &dm.verif_subscriptions()),
+            cells: cells(&dev, &st, &app, &dm.verif_subscriptions(), kv),
             end,
         });
     }
@@ -1032,7 +1090,10 @@ fn run_incarnation(base: &Base, cm: &mut Ctl, kv: &MemKv, ops: &[Op], start: usi
         let flow = async {
             let mut i = start;
             while i < ops.len() {
-                let op = ops[i].clone();
+                let (op, cut) = match ops[i].clone() {
+                    Op::Cut(inner, j) => (*inner, Some(j)),
+                    o => (o, None),
+                };
                 i += 1;
                 let log_before = kv.log().len();
                 let scoped_before = scoped_len(&kv.log());
@@ -1361,13 +1422,22 @@ fn run_incarnation(base: &Base, cm: &mut Ctl, kv: &MemKv, ops: &[Op], start: usi
                 } else {
                     "-".to_string()
                 };
-                let end = scoped_len(&full);
+                let end = cm.borrow().base_scoped + scoped_len(&full);
                 cm.borrow_mut().scoped_total = end;
                 if matches!(op, Op::Crash) {
                     // recorded by the next incarnation, once it is up
                     return Next::Boot(i, full.len());
                 }
-                recs.borrow_mut().push(OpRec { kind: op_kind(&op), status, kv: kvs, ack, fs: fs_str(&dev), cells: cells(&dev, &st, &app, &dm.verif_subscriptions()), end });
+                if let Some(j) = cut {
+                    // the power was lost after the j-th key-value operation: the rest never happened
+                    return Next::Cut(i, log_before, j.min(mine.len()));
+                }
+                let mut inc = cm.borrow_mut().track(&dev);
+                if let Op::Resume(f, p) = &op {
+                    // a CASE session was established: its record belongs to the fabric as it is now
+                    write!(inc, "/{}.{}", f, p).unwrap();
+                }
+                recs.borrow_mut().push(OpRec { inc, kind: op_kind(&op), status, kv: kvs, ack, fs: fs_str(&dev), cells: cells(&dev, &st, &app, &dm.verif_subscriptions(), kv), end });
             }
             Next::Done
         };
@@ -1375,6 +1445,7 @@ fn run_incarnation(base: &Base, cm: &mut Ctl, kv: &MemKv, ops: &[Op], start: usi
         match select(core::pin::pin!(device), core::pin::pin!(e2e::with_timeout(30_000, flow))).await {
             Either::First(r) => {
                 recs.borrow_mut().push(OpRec {
+                    inc: "-".into(),
                     kind: '?',
                     status: format!("transport-exit:{:?}", r.map_err(|e| e.code())),
                     kv: "-".into(),
@@ -1387,7 +1458,7 @@ fn run_incarnation(base: &Base, cm: &mut Ctl, kv: &MemKv, ops: &[Op], start: usi
             }
             Either::Second(Some(n)) => n,
             Either::Second(None) => {
-                recs.borrow_mut().push(OpRec { kind: '?', status: "hang".into(), kv: "-".into(), ack: "-".into(), fs: "?".into(), cells: String::new(), end: 0 });
+                recs.borrow_mut().push(OpRec { inc: "-".into(), kind: '?', status: "hang".into(), kv: "-".into(), ack: "-".into(), fs: "?".into(), cells: String::new(), end: 0 });
                 Next::Done
             }
         }
@@ -1440,33 +1511,70 @@ fn initial_blobs(base: &Base, idxs: &[u8], custom: bool) -> BTreeMap<u16, Vec<u8
 fn run_s(base: &Base, f: &[&str]) -> String {
     let (idxs, pase) = parse_init(f[2]);
     let ops: Vec<Op> = f.get(3).map(|s| s.split(',').filter(|x| !x.is_empty()).map(parse_op).collect()).unwrap_or_default();
-    let mut cm = Ctl { next_root: 2, pase_gen: 0, scoped_total: 0 };
+    let mut cm = Ctl {
+        next_root: 2,
+        pase_gen: 0,
+        scoped_total: 0,
+        base_scoped: 0,
+        inc: idxs.iter().map(|i| (*i, *i as u64)).collect(),
+        next_inc: 1000,
+    };
     let blobs0 = initial_blobs(base, &idxs, f[2].starts_with('i'));
-    let kv = MemKv::from_blobs(blobs0.clone());
+    let mut kv = MemKv::from_blobs(blobs0.clone());
+    // the key-value log of the history up to the current store object
+    let mut history: Vec<KvOp> = Vec::new();
     let mut recs: Vec<OpRec> = Vec::new();
     let mut start = 0usize;
     let mut boot_no = 0u64;
     let mut crash: Option<usize> = None;
+    let mut crash_prefix: Vec<String> = Vec::new();
     loop {
-        let n = run_incarnation(base, &mut cm, &kv, &ops, start, pase && boot_no == 0, boot_no, crash, &mut recs);
+        let n = run_incarnation(base, &mut cm, &kv, &ops, start, pase && boot_no == 0, boot_no, crash, &crash_prefix, &mut recs);
         boot_no += 1;
+        crash_prefix.clear();
         match n {
             Next::Done => break,
             Next::Boot(i, loglen) => {
                 start = i;
                 crash = Some(loglen);
             }
+            Next::Cut(i, log_before, j) => {
+                // keep the log up to the j-th in-scope operation of the cut command, rebuild the store from it
+                let full = kv.log();
+                let mut keep = log_before;
+                let mut seen = 0usize;
+                for (k, o) in full.iter().enumerate().skip(log_before) {
+                    if seen == j {
+                        break;
+                    }
+                    if !foreign_key(op_key(o)) {
+                        seen += 1;
+                        crash_prefix.push(match o {
+                            KvOp::Store(key, _) => format!("s{}", key),
+                            KvOp::Remove(key) => format!("r{}", key),
+                            KvOp::StoreFailed(key) => format!("f{}", key),
+                        });
+                    }
+                    keep = k + 1;
+                }
+                history.extend_from_slice(&full[..keep]);
+                cm.base_scoped = scoped_len(&history);
+                kv = MemKv::from_blobs(MemKv::replay_prefix(&blobs0, &history, history.len()));
+                start = i;
+                crash = Some(0);
+            }
         }
     }
     // the live state before the first operation is the state of a device booted from the initial store
-    let log = kv.log();
+    let mut log = history.clone();
+    log.extend(kv.log());
     let total = scoped_len(&log);
     let mut out = String::new();
     for (i, r) in recs.iter().enumerate() {
         if i > 0 {
             out.push(';');
         }
-        write!(out, "{}|{}|{}|{}|{}|{}|{}", r.status, r.kv, r.ack, r.fs, r.end, r.cells, r.kind).unwrap();
+        write!(out, "{}|{}|{}|{}|{}|{}|{}|{}", r.status, r.kv, r.ack, r.fs, r.end, r.cells, r.kind, r.inc).unwrap();
     }
     out.push_str(" # ");
     // cuts: every prefix of the in-scope log, except inside a factory reset (only its end)
